@@ -41,6 +41,7 @@ type labelsCase struct {
 	Endpoint string `json:"endpoint"`
 	RFC3339  bool   `json:"rfc3339,omitempty"` // prom labels / series accept RFC 3339 times
 	Streams  []Strm `json:"streams"`
+	Ver      VerCfg `json:"ver"`
 }
 
 var labelEndpoints = []string{"loki-labels", "loki-values", "loki-values-match", "loki-series",
@@ -125,6 +126,7 @@ func genLabels(rt *rapid.T) labelsCase {
 	if some("other") {
 		mkStream("other", !sig, at(r64(rt, insideLo, insideHi, "other")))
 	}
+	c.Ver = genVer(rt)
 	return c
 }
 
@@ -185,7 +187,8 @@ func predLabels(c labelsCase, o *evid.Obs) error {
 		path = "/api/v1/series"
 		q.Add("match[]", matcher)
 	}
-	rd, be := newReader(store.db, c.Cluster)
+	rd, be := newReader(store.db, c.Cluster, c.Ver, w)
+	o.Tag(c.Ver.tags(w, "v3_1")...)
 	defer rd.Close()
 	var resp *readersvc.Response
 	inZone(c.RZone, func() {
